@@ -8,6 +8,9 @@ CA_ENS = CA_FRAME_IFACE + [CA_SHRINK, CA_STATUS, CA_BOUND, CA_UNBOUND, CA_PRESER
 ]
 CA_MOD = ["statistics", "shr_domains_stack", "not_entailed_propagators_stack", "dom_update_stack", "stacks_top", "triggered_propagators"]
 interface("ConsistencyAlg", types=ENGINE_T, requires=WF_STATIC + WF_DYN, ensures=CA_ENS, modifies=CA_MOD)
+# the same interface with the acceptance state (C01 composition): implemented by bound_consistency_algorithm#acc and shaving_consistency_algorithm#acc
+CA_ACC_ENS = [c for c in CA_ENS if c[0] != "C02.preserve"] + ACC_ENS
+interface("ConsistencyAlgAcc", types=ENGINE_T, requires=WF_STATIC + WF_DYN + ACC_REQ, ensures=CA_ACC_ENS, modifies=CA_MOD)
 
 SOLVE_T = dict(ENGINE_T)
 del SOLVE_T["compute_domains_addrs"], SOLVE_T["decision_domains"]
@@ -83,7 +86,7 @@ WATCH = lambda l: f"has(triggers[dom_update_stack[{l}, DOM_UPDATE_IDX], p], dom_
 ACC_KL = f"forall(l, 0, stacks_top[0], forall(p, 0, P, implies({NEs}[l, p] and onpoint({SS}, l, p) and not {WATCH('l')}, rel_holds(p))))"
 ACC_JL = f"forall(l, 0, stacks_top[0] + 1, forall(p, 0, P, implies(not {NEs}[l, p] and in_box({SS}, l), rel_holds(p))))"
 ACC_STATE = [("C01.K", ACC_K(SS, "triggered_propagators", "-1")), ("C01.KL", ACC_KL), ("C01.JL", ACC_JL)]
-solve_one_contract("acc", "nucs/solvers/bound_consistency_algorithm.py::bound_consistency_algorithm#acc",
+solve_one_contract("acc", "iface:ConsistencyAlgAcc",
     [(f"C17.backtracks", f"{dstat(BT)} >= bt")] + ACC_STATE,
     [("C01.satisfies", f"implies(result is not None and forall(d, 0, D, trig(d) == d and sigma[d] == {SS}[stacks_top[0], d, MIN]), forall(p, 0, P, rel_holds(p)))"),
      ("C01.K_post", f"implies(result is not None, {ACC_K(SS, 'triggered_propagators', '-1')})"),
